@@ -464,6 +464,62 @@ example : getInlineDataLen EI (some 2) [1, 2, 10, 69, 73] ≠ none ∧ getInline
 theorem C18_inline_scan_norestart_cex : getInlineDataLen EI none [69, 69, 73, 32] = none ∧
     getInlineDataLen EI none [69, 10, 69, 73, 32] = some ([69], 5) := by decide +kernel
 
+/-! ## Round 6 — abbreviations of inline-image keys and values (ISO 32000-1 tables 93 and 94) -/
+
+/-- Table 94, filter names: (abbreviation, full name). -/
+def iso94Filters : List (Bytes × Bytes) :=
+  [([65, 72, 120], [65, 83, 67, 73, 73, 72, 101, 120, 68, 101, 99, 111, 100, 101]),
+   ([65, 56, 53], [65, 83, 67, 73, 73, 56, 53, 68, 101, 99, 111, 100, 101]),
+   ([76, 90, 87], [76, 90, 87, 68, 101, 99, 111, 100, 101]),
+   ([70, 108], [70, 108, 97, 116, 101, 68, 101, 99, 111, 100, 101]),
+   ([82, 76], [82, 117, 110, 76, 101, 110, 103, 116, 104, 68, 101, 99, 111, 100, 101]),
+   ([67, 67, 70], [67, 67, 73, 84, 84, 70, 97, 120, 68, 101, 99, 111, 100, 101]),
+   ([68, 67, 84], [68, 67, 84, 68, 101, 99, 111, 100, 101])]
+
+/-- Table 94, colour space names an inline image may use directly: (abbreviation, full name). -/
+def iso94ColorSpaces : List (Bytes × Bytes) :=
+  [([71], [68, 101, 118, 105, 99, 101, 71, 114, 97, 121]),
+   ([82, 71, 66], [68, 101, 118, 105, 99, 101, 82, 71, 66]),
+   ([67, 77, 89, 75], [68, 101, 118, 105, 99, 101, 67, 77, 89, 75]),
+   ([73], [73, 110, 100, 101, 120, 101, 100])]
+
+/-- **abbrev_tables.** Every pair of table 93 that the image plumbing reads — W/Width, H/Height,
+    BPC/BitsPerComponent, CS/ColorSpace, IM/ImageMask (`LTImage.__init__`), F/Filter, DP/DecodeParms
+    (`PDFStream.get_filters`), F/Filter for the end marker (`do_keyword`, after the round-6 `fix:`) — is accepted in
+    both spellings, abbreviation first: the key tuples REGENERATED from the Python source are exactly the pairs the
+    model (`InlineDict.getAny d [kW, kWidth]` …) uses.  Every filter pair of table 94 is recognised under both names
+    by one `LITERALS_*_DECODE` tuple, every colour space pair has the same component count under both names, and the
+    colour space literals `export_image` compares with are the model's.  (D/Decode and I/Interpolate are never read.) -/
+theorem C18_abbrev_tables :
+    keysWidth = [kW, kWidth] ∧ keysHeight = [kH, kHeight] ∧ keysBits = [kBPC, kBitsPerComponent] ∧
+    keysColorSpace = [kCS, kColorSpace] ∧ keysImageMask = [kIM, kImageMask] ∧ keysFilter = [kF, kFilter] ∧
+    keysEosFilter = [kF, kFilter] ∧ [[68, 80], [68, 101, 99, 111, 100, 101, 80, 97, 114, 109, 115]] <+: keysDecodeParms ∧
+    (∀ p ∈ iso94Filters, ∃ row ∈ filterNames, p.1 ∈ row ∧ p.2 ∈ row) ∧
+    (∀ p ∈ iso94ColorSpaces, componentsOf p.1 = componentsOf p.2 ∧ (componentsOf p.1).isSome = true) ∧
+    litInlineGray = nG ∧ litInlineRGB = nRGB ∧ litDeviceGray = nDeviceGray ∧ litDeviceRGB = nDeviceRGB ∧
+    litDeviceCMYK = nDeviceCMYK := by
+  refine ⟨by decide, by decide, by decide, by decide, by decide, by decide, by decide, by decide, by decide, by decide,
+    by decide, by decide, by decide, by decide, by decide⟩
+
+/-- The end marker does not depend on the spelling of the key: `/F` and `/Filter`, a name or an array starting with
+    a name, give the same marker (no `/F` entry elsewhere in the dictionary). -/
+theorem C18_eos_both_keys (f : Bytes) (rest : List Val) (d : Dict)
+    (h1 : lookup d kF = none) :
+    eosOf ((kFilter, .name f) :: d) = eosOf ((kF, .name f) :: d) ∧
+    eosOf ((kFilter, .arr (.name f :: rest)) :: d) = eosOf ((kF, .arr (.name f :: rest)) :: d) := by
+  have hne : (kFilter == kF) = false := by decide
+  have l1 : ∀ v, lookup ((kFilter, v) :: d) kF = none := by
+    intro v; simp only [lookup, List.find?_cons, hne] at h1 ⊢; exact h1
+  have l2 : ∀ v, lookup ((kFilter, v) :: d) kFilter = some v := by
+    intro v; simp [lookup]
+  have l3 : ∀ v, lookup ((kF, v) :: d) kF = some v := by
+    intro v; simp [lookup]
+  constructor <;> simp only [eosOf, getAny, l1, l2, l3]
+
+example : eosOf [(kFilter, .name nASCII85Decode)] = .ok [126, 62] ∧ eosOf [(kF, .name nA85)] = .ok [126, 62] ∧
+    eosOf [(kFilter, .arr [.name nA85, .name [70, 108]])] = .ok [126, 62] ∧ eosOf [(kFilter, .name [70, 108])] = .ok [69, 73] := by
+  refine ⟨?_, ?_, ?_, ?_⟩ <;> rfl
+
 /-! ## Round 6 — the branch selection of `export_image` as a decision table -/
 
 /-- One row of the decision table: an order-free condition on (plausibility, filters, bits, colour space) for each
